@@ -98,7 +98,7 @@ def plan(tier, seed):
     for fam in env.BUFFERED_FAMILIES:
         for c in env.JSON_FAMILIES[fam]:
             k = env.kind_of(c)
-            d1 = 5 if tier == "quick" else 7
+            d1 = (5 if fam in ("Buffered", "MemoryBuffered") else 4) if tier == "quick" else 7
             for childhandle in (False, True):
                 # childhandle: a nested child is retained BEFORE the history; otherwise nested writes navigate afresh
                 lab = c + ("/1file/childhandle" if childhandle else "/1file")
